@@ -180,6 +180,34 @@ def check_rfc_keys(eng, neg, label):
     return None
 
 
+def check_rfc_ike(eng, ini_sa, ni, nr, old_sk_d, label, secret=None):
+    """the IKE_SA keyring of the exchange initiator is RFC 7296 2.14 (2.18 for a rekey) over THIS exchange's nonces, SPIs and g^ir"""
+    from symx import core
+    T = MODS['message'].Transform
+    prop = ini_sa.chosen_proposal
+    h = PRF_HASH[int(prop.get_transform(T.Type.PRF).id)]
+    pk = h().digest_size
+    ikl = INTEG_LEN[int(prop.get_transform(T.Type.INTEG).id)]
+    ekl = prop.get_transform(T.Type.ENCR).keylen // 8
+    L = core.SymBytes.lift
+    low = lambda b: b.lower() if isinstance(b, core.SymBytes) else b
+    secret = ini_sa.dh.shared_secret if secret is None else secret
+    nn = L(ni) + nr
+    if old_sk_d is None:
+        skeyseed = c04.ref_prf(h, low(nn), secret)
+    else:
+        skeyseed = c04.ref_prf(h, old_sk_d, low(L(secret) + nn))
+    km = c04.ref_prfplus(h, skeyseed, low(nn + ini_sa.my_spi + ini_sa.peer_spi), 3 * pk + 2 * ikl + 2 * ekl)
+    o = 0
+    for name, n in zip(('sk_d', 'sk_ai', 'sk_ar', 'sk_ei', 'sk_er', 'sk_pi', 'sk_pr'), (pk, ikl, ikl, ekl, ekl, pk, pk)):
+        got, want = getattr(ini_sa.ike_sa_keyring, name), km[o:o + n]
+        o += n
+        if len(got) != len(want):
+            return f'{label}: {name} has {len(got)} bytes, RFC 7296 2.14 gives it {len(want)}'
+        eng.prove(eq_bytes(got, want), f'{label}: {name} is not the RFC 7296 2.14' + ('/2.18' if old_sk_d is not None else '') + " value over this exchange's nonces, SPIs and g^ir")
+    return None
+
+
 def check_ike_keys(eng, x, y, label):
     from symx import core
     P = eng.prove
@@ -216,6 +244,9 @@ def do_initial(p, eng, checks):
     neg.ini_sa, neg.res_sa = p.a, p.b
     neg.done(nonces=(ni, nr))
     checks.append(('initial exchange', neg, p.a, p.b))
+    ke_i = m.Message.parse(p.a.ike_sa_init_req_data).get_payload(m.Payload.Type.KE).ke_data
+    ke_r = m.Message.parse(p.a.ike_sa_init_res_data).get_payload(m.Payload.Type.KE).ke_data
+    return check_rfc_ike(eng, p.a, ni, nr, None, 'initial exchange', secret=symcrypto.shared_from_wire(ke_i, ke_r))
 
 
 def do_new_child(p, eng, checks, who, sa_a=None, sa_b=None, pfs=False, label=None):
@@ -284,6 +315,8 @@ def do_cross(p, eng, checks, kinds, sa_a=None, sa_b=None, pfs=False):
 def do_rekey_ike(p, eng, checks, who, sa_a=None, sa_b=None):
     ini, IE, res, RE = ends(p, who, sa_a, sa_b)
     world.ENV.now = ini.rekey_ike_sa_at + 10
+    n0 = len(NONCES)
+    old_sk_d = ini.ike_sa_keyring.sk_d
     req = IE.call(ini.check_rekey_ike_sa_timer)
     assert req is not None
     n_i, n_r = len(IE.kernel.log), len(RE.kernel.log)
@@ -293,11 +326,12 @@ def do_rekey_ike(p, eng, checks, who, sa_a=None, sa_b=None):
         return 'IKE_SA rekey produced no successor', None, None
     if len(IE.kernel.log) != n_i or len(RE.kernel.log) != n_r:
         return 'IKE_SA rekey touched the kernel', None, None
-    bad = check_ike_keys(eng, new_i, new_r, f'IKE_SA rekey initiated by {who}')
+    bad = check_ike_keys(eng, new_i, new_r, f'IKE_SA rekey initiated by {who}') or \
+        check_rfc_ike(eng, new_i, NONCES[n0], NONCES[n0 + 1], old_sk_d, f'IKE_SA rekey initiated by {who}')
     return bad, (new_i if who == 'A' else new_r), (new_r if who == 'A' else new_i)
 
 
-def h_scenario(suite, scenario):
+def h_scenario(suite, scenario, only_rfc=False):
     from symx import core
     eng = core.engine()
     del NONCES[:]
@@ -306,7 +340,9 @@ def h_scenario(suite, scenario):
     checks = []
     S = MODS['ikesa'].IkeSa.State
     try:
-        do_initial(p, eng, checks)
+        bad = do_initial(p, eng, checks)
+        if bad:
+            return {'class': ['scenario'], 'violation': bad}
         sa_a, sa_b = p.a, p.b
         for step in scenario.split('+'):
             if step == 'init':
@@ -325,11 +361,11 @@ def h_scenario(suite, scenario):
     except AssertionError as ex:
         return {'class': ['scenario'], 'violation': f'{suite}/{scenario}: the exchange did not complete ({ex})'}
     for label, neg, x, y in checks:
-        if x is not None:
+        if x is not None and not only_rfc:
             bad = check_ike_keys(eng, x, y, label)
             if bad:
                 return {'class': ['scenario'], 'violation': bad}
-        bad = check_mirror(eng, neg, label) or check_rfc_keys(eng, neg, label)
+        bad = (None if only_rfc else check_mirror(eng, neg, label)) or check_rfc_keys(eng, neg, label)
         if bad:
             return {'class': ['scenario'], 'violation': bad}
     return ['scenario', len(checks)]
